@@ -72,15 +72,19 @@ class Order(Harness):
         return {'product': self.product, 'sa': list(self.sa), 'sb': list(self.sb), 'pa': self.pa, 'pb': self.pb}
 
     def inputs(self):
-        return {'a': sym_version('a', self.sa), 'b': sym_version('b', self.sb)}
+        # a '?' in a patch suffix is an arbitrary digit (OpenSSH portable patch level p0..p9)
+        pa = (self.pa or '').replace('?', '') + (zx.fresh_str('da', 1, DIG) if '?' in (self.pa or '') else '') if self.pa else None
+        pb = self.pb.replace('?', '') + (zx.fresh_str('db', 1, DIG) if '?' in self.pb else '')
+        return {'a': sym_version('a', self.sa), 'b': sym_version('b', self.sb), 'pa': pa, 'pb': pb}
 
     def run(self, M, inp):
         S = M.software.Software
         prod = PRODUCTS[self.product]
-        sa = S(None, prod, inp['a'], self.pa, None)
-        sb = S(None, prod, inp['b'], self.pb or None, None)
-        r1 = guarded(sa.compare_version, inp['b'] + self.pb)
-        r2 = guarded(sb.compare_version, inp['a'] + (self.pa or ''))
+        pa, pb = inp['pa'], inp['pb']
+        sa = S(None, prod, inp['a'], pa, None)
+        sb = S(None, prod, inp['b'], pb or None, None)
+        r1 = guarded(sa.compare_version, inp['b'] + pb)
+        r2 = guarded(sb.compare_version, inp['a'] + (pa or ''))
         r3 = guarded(sa.compare_version, sb)
         return {'ab': r1, 'ba': r2, 'ab_obj': r3}
 
@@ -94,8 +98,15 @@ class Order(Harness):
         yield 'numeric-order', s_and(s_implies(lt, r < 0), s_implies(gt, r > 0))
         yield 'antisymmetric', sign(obs['ab']) == -sign(obs['ba'])
         yield 'string-and-object-argument-agree', sign(obs['ab']) == sign(obs['ab_obj'])
-        if (self.pa or '') == self.pb:
+        if (self.pa or '') == self.pb and '?' not in self.pb:
             yield 'equal-is-zero', s_implies(s_and(s_not(lt), s_not(gt)), r == 0)
+        if self.product == 'openssh':
+            # the table holds plain release numbers: a portable release X.YpN is release X.Y (never older than it), whatever N
+            eq = s_and(s_not(lt), s_not(gt))
+            if self.pa and not self.pb:
+                yield 'patched-release-is-not-older-than-its-base-release', s_implies(eq, r >= 0)
+            if self.pb and not self.pa:
+                yield 'base-release-is-not-newer-than-its-patched-release', s_implies(eq, r <= 0)
 
     def classify(self, inp, obs, label):
         if label == 'numeric-order':
@@ -195,15 +206,17 @@ class Availability(Harness):
 
     BANNERS = {'openssh': 'OpenSSH_', 'dropbear': 'dropbear_', 'libssh': 'libssh_'}
 
-    def __init__(self, product, sa, sb, via_banner=False, prior=None):
-        self.product, self.sa, self.sb, self.via_banner, self.prior = product, tuple(sa), tuple(sb), via_banner, prior
-        self.name = 'availability-%s-%s-vs-%s%s%s' % (product, 'x'.join(map(str, sa)), 'x'.join(map(str, sb)), '-banner' if via_banner else '', ('-after-' + prior) if prior else '')
+    def __init__(self, product, sa, sb, via_banner=False, prior=None, plevel=False):
+        self.product, self.sa, self.sb, self.via_banner, self.prior, self.plevel = product, tuple(sa), tuple(sb), via_banner, prior, plevel
+        self.name = 'availability-%s-%s-vs-%s%s%s%s' % (product, 'x'.join(map(str, sa)), 'x'.join(map(str, sb)), '-banner' if via_banner else '', ('-after-' + prior) if prior else '',
+                                                         '-plevel' if plevel else '')
 
     def params(self):
-        return {'product': self.product, 'sa': list(self.sa), 'sb': list(self.sb), 'via_banner': self.via_banner, 'prior': self.prior}
+        return {'product': self.product, 'sa': list(self.sa), 'sb': list(self.sb), 'via_banner': self.via_banner, 'prior': self.prior, 'plevel': self.plevel}
 
     def inputs(self):
-        return {'a': sym_version('a', self.sa), 'b': sym_version('b', self.sb)}
+        # plevel: the server is a portable OpenSSH release X.YpN with an arbitrary digit N (the table knows plain release numbers only)
+        return {'a': sym_version('a', self.sa), 'b': sym_version('b', self.sb), 'patch': ('p' + zx.fresh_str('pl', 1, DIG)) if self.plevel else None}
 
     def run(self, M, inp):
         from props import outlib as OL
@@ -221,12 +234,12 @@ class Availability(Harness):
         algs = M.algorithms.Algorithms(None, kex)
         if self.via_banner:
             # the server's version as the tool identifies it from the identification string (Banner.parse + Software.parse)
-            b = M.banner.Banner.parse('SSH-2.0-' + self.BANNERS[self.product] + inp['a'])
+            b = M.banner.Banner.parse('SSH-2.0-' + self.BANNERS[self.product] + inp['a'] + (inp['patch'] or ''))
             sw = M.software.Software.parse(b) if b is not None else None
             if sw is None:
                 return {'exc': Exc('NotIdentified', 'software not identified from the banner')}
         else:
-            sw = M.software.Software(None, PRODUCTS[self.product], inp['a'], None, None)
+            sw = M.software.Software(None, PRODUCTS[self.product], inp['a'], inp['patch'], None)
         if self.prior:
             # another server of the same product was assessed just before, in the same process, on the same table (very old or very new: the opposite
             # availability verdict must not stick to the row)
@@ -299,7 +312,7 @@ def tasks(tier):
             for p in prods:
                 T.append(Order(p, a, b))
     # patch suffixes (same versions decide by patch; different versions must ignore it)
-    patches = {'openssh': [('p1', ''), (None, 'p1'), ('p1', 'p2'), ('p2', 'p1')], 'dropbear': [('test1', ''), (None, 'test2'), ('test1', 'test2')],
+    patches = {'openssh': [('p1', ''), (None, 'p1'), ('p1', 'p2'), ('p2', 'p1'), ('p?', ''), (None, 'p?'), ('p?', 'p?')], 'dropbear': [('test1', ''), (None, 'test2'), ('test1', 'test2')],
                'libssh': [(None, ''), ('rc1', '')]}
     for p in prods:
         for pa, pb in patches[p]:
@@ -322,18 +335,22 @@ def tasks(tier):
             continue
         for p in (prods if tier != 'quick' else [prods[i % 3]]):
             T.append(Availability(p, a, b))
-    if tier == 'quick':
+    if True:
         T.append(Availability('libssh', (1, 2, 1), (1, 1, 1)))
         T.append(Availability('libssh', (1, 1, 1), (1, 2, 1)))
         T.append(Availability('dropbear', (4, 2), (4, 2)))
         T.append(Availability('openssh', (2, 1), (1, 1), True))
+        T.append(Availability('openssh', (1, 1), (1, 1), False, None, True))
+        T.append(Availability('openssh', (1, 1), (1, 1), True, None, True))
         T.append(Availability('openssh', (1, 1), (2, 1), True))
         T.append(Availability('libssh', (1, 2, 1), (1, 1, 1), True))
         T.append(Availability('dropbear', (4, 2), (4, 2), True))
         T.append(Availability('openssh', (1, 1), (1, 1), False, '0.1'))
         T.append(Availability('openssh', (1, 1), (1, 1), False, '999.9'))
         T.append(Availability('libssh', (1, 2, 1), (1, 1, 1), False, '0.0.1'))
-    else:
+    if tier != 'quick':
+        T.append(Availability('openssh', (1, 2), (1, 2), True, None, True))
+        T.append(Availability('openssh', (2, 1), (2, 1), True, None, True))
         for p in prods:
             for a in [(1, 1), (2, 1), (1, 2), (2, 2), (1, 2, 1), (4, 2)]:
                 T.append(Availability(p, a, (1, 1) if len(a) == 2 else (1, 1, 1), True))
@@ -347,7 +364,7 @@ def harness_by_name(name, params):
     if k == 'trans':
         return Transitive(params['product'], params['sa'], params['sb'], params['sc'])
     if k == 'availability':
-        return Availability(params['product'], params['sa'], params['sb'], params.get('via_banner', False), params.get('prior'))
+        return Availability(params['product'], params['sa'], params['sb'], params.get('via_banner', False), params.get('prior'), params.get('plevel', False))
     if k == 'timeframe':
         return TimeframeMinMax(params['prefix'], params['sa'], params['sb'], params['order'])
     raise KeyError(name)
@@ -356,7 +373,7 @@ def harness_by_name(name, params):
 META = {
     'functions': ['Algorithms.get_recommendations (availability filter)', 'Software.compare_version', 'Timeframe.update/_update/get_from/get_till', 'Algorithm.get_ssh_version'],
     'bounds': {'quick': 'version strings with 1..3 components of 1..2 digits (no leading zeros), all digit values; OpenSSH/Dropbear/libssh; '
-                        'patch suffixes p1,p2,test1,test2,rc1; transitivity over triples of 2-component versions',
+                        'patch suffixes p1,p2,p<any digit>,test1,test2,rc1; transitivity over triples of 2-component versions',
                'thorough': '1..4 components of 1..4 digits; all three products for every shape pair; triples up to 3 components'},
     'outside': ['versions with leading zeros', 'non-numeric version strings', 'order among equal versions with different patch suffixes is only checked for antisymmetry'],
     'stubs': ['re: backtracking regex model (validated per path)'],
